@@ -533,10 +533,10 @@ class Queue(Greenlet):
         self.wake.clear()
         self.queued_lock.acquire()
         try:
-            for entry in self.queued:
-                self._dispatch(entry[1])
-            self.queued = []
-            self.queued_ids = set()
+            # Work on the live timetable, like the scheduler does: what is
+            # added while a bounded store pool makes us wait is flushed as
+            # well, instead of being wiped afterwards.
+            self._check_ready(float('inf'))
         finally:
             self.queued_lock.release()
 
